@@ -952,7 +952,7 @@ func (g *jsGen) stmt() string {
 		if r.Bool() {
 			// string-literal index convertible to dot form followed by a parenthesised `in` inside a for initialiser
 			w := g.declare("var")
-			return "for(var " + v + "=G2[\"length\"]-2," + w + "=(\"a\" in {a:1});" + v + "<2;" + v + "++){h(" + g.nextSite() + "," + w + ");" + g.stmt() + "}"
+			return "for(var " + v + "=GL[\"length\"]-2," + w + "=(\"a\" in {a:1});" + v + "<2;" + v + "++){h(" + g.nextSite() + "," + w + ");" + g.stmt() + "}"
 		}
 		return "var " + v + ";for(" + v + "=(\"a\" in {a:1})?0:1;" + v + "<2;" + v + "++)" + g.body()
 	case 21, 22:
@@ -1163,7 +1163,9 @@ func genJSProgram(r *core.Rand) (src string, strict bool) {
 	if g.strict {
 		sb.WriteString("\"use strict\";")
 	}
-	sb.WriteString("var G0=1,G1=\"s\",G2=[1,2];")
+	// GL is read (GL["length"]) but never assigned by generated code: a function value cannot reach it, so
+	// finding js-function-length-after-param-removal (unused parameters are dropped, f.length changes) stays out.
+	sb.WriteString("var G0=1,G1=\"s\",G2=[1,2],GL=[1,2];")
 	n := 3 + r.Intn(10)
 	sep := r.Pick([]string{"", "\n", "\n"})
 	for i := 0; i < n; i++ {
